@@ -51,6 +51,7 @@ var mapRanges = map[string]map[string]bool{}
 // lock held by a parked hand yields to the simulator instead of blocking
 var lockSites = map[string]map[string]string{}
 var lockRewrites int
+var poolRewrites int
 var typeImporter types.Importer
 var typeFset = token.NewFileSet()
 var rangeSites int
@@ -210,10 +211,11 @@ func main() {
 	}
 	// the hook package
 	var sb strings.Builder
-	sb.WriteString("// Code generated by yieldgen. DO NOT EDIT.\n\npackage verifyield\n\nimport (\n\t\"fmt\"\n\t\"reflect\"\n\t\"runtime\"\n\t\"sort\"\n)\n\n")
+	sb.WriteString("// Code generated by yieldgen. DO NOT EDIT.\n\npackage verifyield\n\nimport (\n\t\"fmt\"\n\t\"reflect\"\n\t\"runtime\"\n\t\"sort\"\n\t\"sync\"\n)\n\n")
 	sb.WriteString("// H is the simulator's scheduling hook (nil: scheduling points do nothing).\nvar H func(fid int)\n\n")
 	sb.WriteString("// B is called by a hand that cannot take a lock at the moment (nil: let other goroutines run).\nvar B func()\n\n// Blocked is one failed attempt to take a lock.\nfunc Blocked() {\n\tif B != nil {\n\t\tB()\n\t\treturn\n\t}\n\truntime.Gosched()\n}\n\n")
 	sb.WriteString(keysHelper)
+	sb.WriteString(poolHelper)
 	sb.WriteString("// Y is a scheduling point.\nfunc Y(fid int) {\n\tif H != nil {\n\t\tH(fid)\n\t}\n}\n\n")
 	sb.WriteString("// FuncNames maps function ids to names.\nvar FuncNames = []string{\n")
 	for _, n := range funcNames {
@@ -232,7 +234,7 @@ func main() {
 	if err := os.WriteFile(filepath.Join(dst, "verifyield", "detrand", "detrand.go"), []byte(detrandSrc), 0o644); err != nil {
 		fail("%v", err)
 	}
-	fmt.Printf("yieldgen: %d files, %d functions, %d scheduling points, %d map iterations put in key order, %d lock acquisitions made visible\n", files, len(funcNames), points, rangeSites, lockRewrites)
+	fmt.Printf("yieldgen: %d files, %d functions, %d scheduling points, %d map iterations put in key order, %d lock acquisitions made visible, %d sync.Pool uses made deterministic\n", files, len(funcNames), points, rangeSites, lockRewrites, poolRewrites)
 }
 
 func copyFile(a, b string) error {
@@ -316,6 +318,40 @@ func Shuffle(n int, swap func(i, j int)) { g.Shuffle(n, swap) }
 func Read(p []byte) (int, error)         { return g.Read(p) }
 func NormFloat64() float64               { return g.NormFloat64() }
 func ExpFloat64() float64                { return g.ExpFloat64() }
+`
+
+const poolHelper = `// Pool stands in for sync.Pool in the generated copy: a last-in-first-out
+// free list that never forgets an object.
+type Pool struct {
+	New   func() interface{}
+	mu    sync.Mutex
+	items []interface{}
+}
+
+func (p *Pool) Get() interface{} {
+	p.mu.Lock()
+	if n := len(p.items); n > 0 {
+		x := p.items[n-1]
+		p.items = p.items[:n-1]
+		p.mu.Unlock()
+		return x
+	}
+	p.mu.Unlock()
+	if p.New != nil {
+		return p.New()
+	}
+	return nil
+}
+
+func (p *Pool) Put(x interface{}) {
+	if x == nil {
+		return
+	}
+	p.mu.Lock()
+	p.items = append(p.items, x)
+	p.mu.Unlock()
+}
+
 `
 
 const keysHelper = `// Keys returns the keys of m in a fixed order. In the generated copy every
@@ -434,6 +470,36 @@ func instrument(rel string, src []byte, maps map[string]bool, locks map[string]s
 		lockRewrites++
 		return true
 	})
+	// sync.Pool hands out per-processor objects and forgets them at garbage
+	// collections: in the copy it is a plain last-in-first-out free list
+	// (the reuse a real pool may always choose, and the most adverse one)
+	syncName := ""
+	for _, im := range f.Imports {
+		if im.Path.Value == `"sync"` {
+			syncName = "sync"
+			if im.Name != nil {
+				syncName = im.Name.Name
+			}
+		}
+	}
+	if syncName != "" && syncName != "_" && syncName != "." {
+		pools := 0
+		ast.Inspect(f, func(n ast.Node) bool {
+			se, ok := n.(*ast.SelectorExpr)
+			if !ok || se.Sel.Name != "Pool" {
+				return true
+			}
+			if id, ok := se.X.(*ast.Ident); ok && id.Name == syncName && id.Obj == nil {
+				edits = append(edits, edit{off(se.Pos()), off(se.End()) - off(se.Pos()), "verifyield.Pool"})
+				pools++
+			}
+			return true
+		})
+		if pools > 0 {
+			poolRewrites += pools
+			edits = append(edits, edit{len(src), 0, "\nvar _ " + syncName + ".Locker // keeps the import used (generated)\n"})
+		}
+	}
 	// math/rand goes behind a seam: the copy draws from a fixed stream, so
 	// that a shuffle costs the same statements in every execution
 	for _, im := range f.Imports {
